@@ -603,7 +603,15 @@ def run(ctx):
         thunks.append(fp(fp_bounds, sk))
     thunks.append(fp(fp_lemmas, 0))
     thunks.append(fp(fp_lemmas, 1))
-    thunks.append(fp_model_crosscheck)
+    def crosscheck_guarded(c):
+        try:
+            fp_model_crosscheck(c)
+        except (Unsupported, PyRaise, AttributeError, TypeError, KeyError, IndexError, ValueError, z3.Z3Exception) as e:
+            from pyvc.framework import ObResult
+            r = c.add(ObResult("C16/A2-fp/model-vs-numpy", "unknown", kind="bounded",
+                               detail=f"the binary64 run of the source is outside the supported subset ({type(e).__name__}: {str(e)[:160]})"))
+            r.replayer = "c16_fold"
+    thunks.append(crosscheck_guarded)
     ctx.parallel(thunks)
     ctx.trust("A1 for the T-ARR run only: floats as reals (the binary64 behaviour of the same source is the T-FP64 run)",
               "A2-fp: numpy float64 `%` = npy_divmod (exact fmod, sign fix-up, +0 for zero), np.floor = roundToIntegral(RTN), "
